@@ -47,7 +47,9 @@ ASSUMPTIONS = [
     "(its documented expansion is a (continue) outside any loop), body assignments inside a comprehension in class scope (Python itself rejects them; Hy keeps them local)",
     "key and value of one dfor element are sibling forms: their relative evaluation order is not fixed by the docs, any interleaving is accepted",
     "gfor: evaluation of the first clause's expression (first iterable, or leading :setv value) at creation time is tolerated either way, as for Python generator expressions",
-    "explicit (continue)/(break) clauses with no iteration clause before them are not generated (Python rejects them)",
+    "explicit (continue)/(break) clauses with no iteration clause before them are not generated (Python rejects them); a nested comprehension in the body of a `for` in class scope is not generated (it would read class-body variables)",
+    "the longest clause lists of a tier are run in function scope only (thorough: also without pre-bound variables only); see bounds",
+    "speed shortcut: the scope x mode programs of one term share the form's models, read once by the real reader, inside separately read wrappers; the pure variant of every unit is also run from its full text, and every disagreement is re-derived from the full text before it is reported",
 ]
 TIME_CAP = {"quick": 900, "thorough": 5400}
 
